@@ -161,8 +161,8 @@ def facBtOK (fac : Factory) : Bool := fac.all fun e => _root_.Fit.Value.btValid 
 
 /-- what the wire model (A) and the reader-client model (D) both report of a run: definitions with their contents; per
 message the header byte, the global number and the bytes of every field of non-zero size under its number (developer
-payloads are not comparable: (A) keeps the bytes of every developer field, (D) those with a field description; the
-timestamp (A) reconstructs is a value — see `apiOf`); per sequence header and CRCs -/
+payloads are not part of it: (A) keeps the bytes of every developer field in the item, (D) lists those with a field
+description; the timestamp (A) reconstructs is a value — see `apiOf`); per sequence header and CRCs -/
 inductive WEv
   | def_ (header arch mesgNum : Nat) (fields devs : List (Nat × Nat × Nat))
   | msg (header mesgNum : Nat) (payload : List (Nat × List Nat))
@@ -190,15 +190,6 @@ def errAofD : DecProg.Err → Wire.Err
 def wireObsA (r : List Wire.Ev × Option Wire.Err) : List WEv × Option Wire.Err := (r.1.map wevOfA, r.2)
 /-- (D)'s run in the common form -/
 def wireObsD (o : DecProg.Out) : List WEv × Option Wire.Err := (o.evs.map wevOfD, o.status.map errAofD)
-
-/-- every field description (A)'s run records carries a valid base type: the `field_description` records among its items
-have a valid byte in (the last) field 2 (none: 255, invalid). Outside this, (A) is known to be wrong (notes/links.md D1). -/
-def fdValidA (evs : List Wire.Ev) : Bool :=
-  evs.all fun
-    | .item (.data r) =>
-      r.num != Fit.Gen.Integ.mesgNumFieldDescription ||
-        DecProg.validBaseType (DecProg.lastVal ((r.fields.filter fun p => p.1.size != 0).map fun p => (p.1.num, p.2)) Fit.Gen.Integ.fdFitBaseTypeId)
-    | _ => true
 
 /-! ## the independent framing spec → the raw decoder -/
 
